@@ -69,7 +69,7 @@ func builderStageType(pkg string, chain bool, n, i int) string {
 	return fmt.Sprintf("%s.ApplicativeFunctor%d[%s, int]", pkg, rem, ints(rem))
 }
 
-func builderHarness(pkg string, chain bool, n int, onePos int, label string) string {
+func builderHarness(pkg string, chain bool, n int, onePos int, singleFail bool, label string) string {
 	kinds := builderKinds(pkg, chain)
 	mT, mOf := "fp.Try[int]", "asTry"
 	if pkg == "option" {
@@ -79,7 +79,13 @@ func builderHarness(pkg string, chain bool, n int, onePos int, label string) str
 	w := func(f string, a ...any) { sb.WriteString(fmt.Sprintf(f, a...)) }
 	w("\tbLog = nil\n\tzz.Config(\"loop\", 2000)\n")
 	w("\tvar ops [%d]operand\n\tvar kinds [%d]int\n\tvar prev [%d]int\n\tvar seen [%d][]int\n\t_, _ = prev, seen\n", n, n, n, n)
-	w("\tfor i := range ops {\n\t\tops[i] = operand{ok: zz.Bool(\"ok\" + itoa(i+1)), v: zz.Int(\"v\" + itoa(i+1)), err: errs[i]}\n\t}\n")
+	if singleFail {
+		// at most one failing operand, at a symbolically chosen position
+		w("\tfailAt := zz.Choice(\"failAt\", %d)\n", n+1)
+		w("\tfor i := range ops {\n\t\tops[i] = operand{ok: failAt != i, v: zz.Int(\"v\" + itoa(i+1)), err: errs[i]}\n\t}\n")
+	} else {
+		w("\tfor i := range ops {\n\t\tops[i] = operand{ok: zz.Bool(\"ok\" + itoa(i+1)), v: zz.Int(\"v\" + itoa(i+1)), err: errs[i]}\n\t}\n")
+	}
 	if onePos < 0 {
 		w("\tfor i := range kinds {\n\t\tkinds[i] = zz.Choice(\"kind\"+itoa(i+1), %d)\n\t}\n", len(kinds))
 	} else {
@@ -319,15 +325,23 @@ func genBuilders(id, pkgName string, maxAll, maxOne int) genFn {
 				chain := fam == "Chain"
 				for _, n := range ar[fam] {
 					label := fmt.Sprintf("%s.%s%d", pkg, fam, n)
+					if n <= mOne {
+						markCovered(strings.ToUpper(id), label)
+					}
 					switch {
 					case n >= 2 && n <= mAll:
-						sb.WriteString(fmt.Sprintf("\nfunc VH_%s_%s_%s%d_all() {\n%s}\n", id, pkg, fam, n, builderHarness(pkg, chain, n, -1, label)))
+						sb.WriteString(fmt.Sprintf("\nfunc VH_%s_%s_%s%d_all() {\n%s}\n", id, pkg, fam, n, builderHarness(pkg, chain, n, -1, false, label)))
 					case n >= 2 && n <= mOne:
 						for p := 0; p < n; p++ {
-							sb.WriteString(fmt.Sprintf("\nfunc VH_%s_%s_%s%d_pos%d() {\n%s}\n", id, pkg, fam, n, p+1, builderHarness(pkg, chain, n, p, fmt.Sprintf("%s (position %d free)", label, p+1))))
+							sb.WriteString(fmt.Sprintf("\nfunc VH_%s_%s_%s%d_pos%d() {\n%s}\n", id, pkg, fam, n, p+1, builderHarness(pkg, chain, n, p, false, fmt.Sprintf("%s (position %d free)", label, p+1))))
 						}
 					case n == 1:
-						sb.WriteString(fmt.Sprintf("\nfunc VH_%s_%s_%s%d_all() {\n%s}\n", id, pkg, fam, n, builderHarness(pkg, chain, n, -1, label)))
+						sb.WriteString(fmt.Sprintf("\nfunc VH_%s_%s_%s%d_all() {\n%s}\n", id, pkg, fam, n, builderHarness(pkg, chain, n, -1, false, label)))
+					case mOne > mAll: // C14: arities above the all-failure-sets bound with at most one failing operand
+						markCovered(strings.ToUpper(id), label)
+						for p := 0; p < n; p++ {
+							sb.WriteString(fmt.Sprintf("\nfunc VH_%s_%s_%s%d_pos%d_onefail() {\n%s}\n", id, pkg, fam, n, p+1, builderHarness(pkg, chain, n, p, true, fmt.Sprintf("%s (position %d free, at most one failing operand)", label, p+1))))
+						}
 					default:
 						unc = append(unc, fmt.Sprintf("%s (arity above the bound %d)", label, mOne))
 					}
